@@ -743,15 +743,303 @@ func genSyncBoundary(r *Rand) Input {
 	return g.finish("sync-boundary")
 }
 
+// ---------------------------------------------------------------------------------------------
+// slow-fetch: the beacon node answers a duties request late, the chain moves on meanwhile (a
+// restart late in a slot, a busy node at the epoch boundary).  Duties are dense (most slots of
+// the epochs around the clock have one), so that the slots that pass during the request matter.
+
+func (g *hgen) denseEnv(lo, hi uint64, withSync bool) *Env {
+	g.version++
+	r, spe := g.r, g.h.SPE
+	e := &Env{Vals: true}
+	off := g.version * 10
+	for ep := lo; ep <= hi; ep++ {
+		var ads []ADuty
+		var pds []PDuty
+		for s := ep * spe; s < (ep+1)*spe; s++ {
+			if r.Chance(4, 5) {
+				ads = append(ads, ADuty{Slot: s, Val: off + 1 + s%3, Comm: uint64(r.Intn(3)), VCI: uint64(r.Intn(50))})
+			}
+			if r.Chance(1, 2) {
+				pds = append(pds, PDuty{Slot: s, Val: off + 1 + (s+1)%3})
+			}
+		}
+		if r.Chance(1, 6) {
+			ads = append(ads, ADuty{Slot: (ep + 1) * spe, Val: off + 2, Comm: 0, VCI: 1})
+			g.tag("duty-outside-epoch")
+		}
+		e.Att = append(e.Att, EpochAtt{Epoch: ep, Duties: ads})
+		e.Prop = append(e.Prop, EpochProp{Epoch: ep, Duties: pds})
+	}
+	if withSync && g.h.Period > 0 {
+		for p := lo / g.h.Period; p <= hi/g.h.Period+1; p++ {
+			vs := []uint64{off + uint64(r.Range(1, 3))}
+			if r.Chance(1, 10) {
+				vs = nil
+			}
+			e.Sync = append(e.Sync, PeriodSync{Period: p, Vals: vs})
+		}
+	}
+	return e
+}
+
+// slowDelay picks the late request: attester duties of this or the next epoch, proposer duties of
+// this epoch, sync committee duties of this or the next period; mostly one slot late, sometimes
+// late within the slot (0), two slots, or a whole epoch.
+func (g *hgen) slowDelay(ce uint64, kinds string, withSync bool) *Delay {
+	r := g.r
+	d := &Delay{}
+	switch x := r.Intn(6); {
+	case x < 1:
+		d.Slots = 0
+	case x < 4:
+		d.Slots = 1
+	case x < 5:
+		d.Slots = 2
+	default:
+		d.Slots = g.h.SPE
+	}
+	k := kinds
+	if k == "" {
+		k = []string{"att", "att", "prop", "sync"}[r.Intn(4)]
+		if k == "sync" && !withSync {
+			k = "att"
+		}
+	}
+	d.Kind = k
+	switch k {
+	case "att":
+		d.Key = ce + uint64(r.Intn(2))
+	case "prop":
+		d.Key = ce
+	case "sync":
+		d.Key = ce / max(g.h.Period, 1)
+		if r.Chance(1, 3) {
+			d.Key++
+		}
+	}
+	g.tag("slow-" + k)
+	return d
+}
+
+func genSlowFetch(r *Rand) Input {
+	g := newHist(r)
+	h := g.h
+	if h.SPE > 6 { // dense duties: long epochs add cost, not coverage
+		h.SPE = uint64(r.Range(2, 6))
+	}
+	withSync := r.Chance(1, 2)
+	if withSync { // a preparation job per slot of the period: keep the tables small
+		h.SPE = uint64(r.Range(2, 4))
+		h.Period = uint64([]int{2, 3, 4}[r.Intn(3)])
+	}
+	if r.Chance(2, 5) {
+		return genSlowDirect(g, withSync)
+	}
+	if withSync {
+		h.HaveAgg = true
+		f := uint64(0)
+		h.SpecAltair = &f
+		g.tag("sync-enabled")
+	}
+	ce := uint64(r.Range(1, 30))
+	cur := ce*h.SPE + uint64(r.Intn(int(h.SPE)))
+	late := func(op Op, kinds string, num, den int) {
+		if r.Chance(num, den) {
+			op.Delay = g.slowDelay(ce, kinds, withSync)
+			g.add(op)
+			cur += op.Delay.Slots
+			ce = cur / h.SPE
+			return
+		}
+		g.add(op)
+	}
+	g.add(Op{K: "advance", Slot: cur})
+	g.add(Op{K: "setenv", Env: g.denseEnv(ce, ce+2, withSync)})
+	late(Op{K: "start"}, "", 2, 3)
+	prevRoot, curRoot, nextRoot := uint64(r.Range(1, 9)), uint64(r.Range(11, 19)), uint64(100)
+	steps := r.Range(3, int(h.SPE)+4)
+	if steps > 8 {
+		steps = 8
+	}
+	envEpoch := ce
+	for i := 0; i < steps; i++ {
+		old := ce
+		cur++
+		ce = cur / h.SPE
+		g.add(Op{K: "advance", Slot: cur})
+		if ce != old {
+			prevRoot, curRoot = curRoot, nextRoot
+			nextRoot++
+		}
+		if ce != envEpoch {
+			g.add(Op{K: "setenv", Env: g.denseEnv(ce, ce+2, withSync)})
+			envEpoch = ce
+		}
+		if cur%h.SPE == 0 && r.Chance(9, 10) {
+			k := "prop"
+			if withSync && r.Chance(1, 3) {
+				k = "sync"
+			}
+			late(Op{K: "tick"}, k, 1, 2)
+		}
+		if r.Chance(2, 3) {
+			pr, cr := prevRoot, curRoot
+			switch r.Intn(6) {
+			case 0:
+				g.tag("prev-root-changed")
+				g.add(Op{K: "setenv", Env: g.denseEnv(ce, ce+2, withSync)})
+				prevRoot = nextRoot
+				nextRoot++
+				pr = prevRoot
+			case 1:
+				g.tag("cur-root-changed")
+				g.add(Op{K: "setenv", Env: g.denseEnv(ce, ce+2, withSync)})
+				curRoot = nextRoot
+				nextRoot++
+				cr = curRoot
+			case 2:
+				g.tag("both-roots-changed")
+				g.add(Op{K: "setenv", Env: g.denseEnv(ce, ce+2, withSync)})
+				prevRoot, curRoot = nextRoot, nextRoot+1
+				nextRoot += 2
+				pr, cr = prevRoot, curRoot
+			}
+			late(Op{K: "head", Slot: cur, Prev: pr, Cur: cr}, "", 1, 2)
+		}
+		if r.Chance(2, 3) {
+			g.add(Op{K: "fire", Job: "early", Num: cur, HeadSlot: cur - 1 - uint64(r.Intn(2))})
+		}
+		if r.Chance(2, 3) {
+			g.add(Op{K: "fire", Job: "prop", Num: cur})
+		}
+		if r.Chance(2, 3) {
+			g.add(Op{K: "fire", Job: "att", Num: cur})
+		}
+		if cur%h.SPE >= h.SPE/2 && r.Chance(1, 2) {
+			op := Op{K: "fire", Job: "prep", Num: ce + 1}
+			if r.Chance(2, 3) {
+				op.Delay = g.slowDelay(ce, "att", withSync)
+				op.Delay.Key = ce + 1
+				g.add(op)
+				cur += op.Delay.Slots
+				ce = cur / h.SPE
+			} else {
+				g.add(op)
+			}
+		}
+		switch r.Intn(12) {
+		case 0:
+			late(Op{K: "refreshatt", Epoch: ce + uint64(r.Intn(2))}, "att", 2, 3)
+		case 1:
+			late(Op{K: "refreshprop", Epoch: ce}, "prop", 2, 3)
+		case 2, 3:
+			g.tag("restart")
+			late(Op{K: "start"}, "", 2, 3)
+		}
+	}
+	g.tag("slow-lifecycle")
+	return g.finish("slow-fetch")
+}
+
+// the scheduling and refresh functions called directly (hook-built controller), each with its own
+// request answered late
+func genSlowDirect(g *hgen, withSync bool) Input {
+	r, h := g.r, g.h
+	h.Hook = true
+	if withSync {
+		h.HaveAgg = true
+		h.Handling = true
+		h.AltairEpoch = uint64(r.Intn(2)) * uint64(r.Range(1, 3))
+		g.tag("sync-enabled")
+	}
+	ce := uint64(r.Range(1, 20))
+	if h.Handling && ce < h.AltairEpoch {
+		ce = h.AltairEpoch + uint64(r.Intn(3))
+	}
+	cur := ce*h.SPE + uint64(r.Intn(int(h.SPE)))
+	if r.Chance(1, 3) {
+		cur = ce*h.SPE + h.SPE - 1 // the last slot of an epoch: the answer arrives in the next epoch
+	}
+	g.add(Op{K: "advance", Slot: cur})
+	lo := ce
+	if lo > 0 {
+		lo--
+	}
+	g.add(Op{K: "setenv", Env: g.denseEnv(lo, ce+2, withSync)})
+	late := func(op Op, kind string, key uint64) {
+		if r.Chance(3, 4) {
+			op.Delay = g.slowDelay(ce, kind, withSync)
+			op.Delay.Key = key
+			if r.Chance(1, 8) {
+				op.Delay.Key++ // another request than the one this call makes: nothing waits
+			}
+		}
+		g.add(op)
+		if op.Delay != nil {
+			cur += op.Delay.Slots
+			ce = cur / h.SPE
+		}
+	}
+	P := max(h.Period, 1)
+	for i, n := 0, r.Range(2, 7); i < n; i++ {
+		ep := ce + uint64(r.Intn(2))
+		switch k := r.Intn(20); {
+		case k < 4:
+			late(Op{K: "schedatt", Epoch: ep, NotCur: r.Bool()}, "att", ep)
+		case k < 7:
+			late(Op{K: "schedprop", Epoch: ep, NotCur: r.Bool()}, "prop", ep)
+		case k < 9:
+			late(Op{K: "refreshatt", Epoch: ep}, "att", ep)
+		case k < 11:
+			late(Op{K: "refreshprop", Epoch: ep}, "prop", ep)
+		case k < 14:
+			if withSync {
+				se := ce + uint64(r.Intn(int(P)+1))
+				key := se / P
+				if se/P == ce/P || r.Chance(1, 2) {
+					key = max(se/P*P, ce) / P
+				}
+				late(Op{K: "schedsync", Epoch: se, NotCur: r.Bool()}, "sync", key)
+			}
+		case k < 15:
+			if withSync && ce >= P {
+				se := ce + uint64(r.Intn(int(P)))
+				late(Op{K: "refreshsync", Epoch: se}, "sync", max(se/P*P, ce)/P)
+			}
+		case k < 16:
+			late(Op{K: "tick"}, "prop", ce)
+			if r.Chance(1, 2) {
+				late(Op{K: "fire", Job: "prep", Num: ce + 1}, "att", ce+1)
+			}
+		case k < 17:
+			late(Op{K: "head", Slot: cur, Prev: uint64(r.Intn(3)), Cur: uint64(r.Intn(3))}, []string{"att", "prop"}[r.Intn(2)], ce+uint64(r.Intn(2)))
+		case k < 18:
+			cur += uint64(r.Range(0, 2))
+			ce = cur / h.SPE
+			g.add(Op{K: "advance", Slot: cur})
+		case k < 19:
+			g.add(Op{K: "setenv", Env: g.denseEnv(ce, ce+2, withSync)})
+		default:
+			kind := []string{"att", "prop", "early"}[r.Intn(3)]
+			g.add(Op{K: "fire", Job: kind, Num: cur, HeadSlot: cur - uint64(r.Range(1, 2))})
+		}
+	}
+	g.tag("slow-direct")
+	return g.finish("slow-fetch")
+}
+
 func gen(r *Rand, i int) Input {
 	switch k := r.Intn(100); {
-	case k < 26:
+	case k < 22:
 		return genTime(r)
-	case k < 28:
+	case k < 24:
 		return genSecs(r)
-	case k < 33:
+	case k < 28:
 		return genMerge(r)
-	case k < 54:
+	case k < 36:
+		return genSlowFetch(r)
+	case k < 55:
 		return genDirect(r)
 	case k < 76:
 		return genLifecycle(r)
